@@ -6,8 +6,8 @@
 (* the schema declaration's __OperationInput namespace, is judged against  *)
 (* variable coercion (spec 6.1.2 / 3.x input coercion) as stated in        *)
 (* SchemaDecl.tla:                                                         *)
-(*   [[Variables]] \subseteq Coercible  (omission allowed iff nullable or  *)
-(*                                       defaulted)                        *)
+(*   [[Variables]] \subseteq Coercible  (never null / absent where         *)
+(*        required; a nullable variable omitted only if the option is on)  *)
 (*   Explicit_c \subseteq [[Variables]] (omission of a nullable variable   *)
 (*                                       iff allowUndefinedAsOptionalInput)*)
 (* on canonical assignments and all one-position perturbations; the input  *)
@@ -32,8 +32,12 @@ VariablesItems(S, cfg, env, op, typeName) ==
       okAll == \A key \in keys : HasCanon(PosCands(A, tyOf(key)), LAMBDA x : InRefPos(S, cfg, "OperationInput", tyOf(key), x))
       canonOf(key) == Canon(PosCands(A, tyOf(key)), LAMBDA x : InRefPos(S, cfg, "OperationInput", tyOf(key), x))
       candsOf(key) == PosCands(A, tyOf(key))
+      (* upper bound: what the type may admit.  Omitting a variable is coercible when it is nullable or defaulted, but the property   *)
+      (* ties omission of NULLABLE ones to the option ("exactly when the option is on"); a non-null variable with a default may     *)
+      (* be required or optional.                                                                                                   *)
       Coercible(v) == v.k = "rec" /\ \A key \in keys : LET y == Read(v, key) IN
-                        (y.k = "undef" /\ (tyOf(key).k # "nn" \/ vd(key).hasDefault)) \/ InRefPos(S, cfg, "OperationInput", tyOf(key), y)
+                        (y.k = "undef" /\ ((tyOf(key).k # "nn" /\ cfg.allowUndefined) \/ (tyOf(key).k = "nn" /\ vd(key).hasDefault)))
+                        \/ InRefPos(S, cfg, "OperationInput", tyOf(key), y)
       Explicit(v) == v.k = "rec" /\ \A key \in keys : LET y == Read(v, key) IN
                         (y.k = "undef" /\ tyOf(key).k # "nn" /\ cfg.allowUndefined) \/ InRefPos(S, cfg, "OperationInput", tyOf(key), y)
       ctx == <<"Variables", typeName>>
